@@ -2885,6 +2885,33 @@ func (b transportResponseBody) Close() error {
 	return nil
 }
 
+// returnDiscardedData accounts a DATA frame that is dropped with a stream
+// error against the connection-level flow-control window and gives the
+// bytes back to the peer. RFC 7540, 6.9: a flow-controlled frame always
+// counts against the connection window unless it is a connection error;
+// without this every such frame shrinks the peer's view of the window for
+// the rest of the connection.
+func (rl *clientConnReadLoop) returnDiscardedData(f *DataFrame) error {
+	if f.Length == 0 {
+		return nil
+	}
+	cc := rl.cc
+	cc.mu.Lock()
+	ok := cc.inflow.take(f.Length)
+	connAdd := cc.inflow.add(int(f.Length))
+	cc.mu.Unlock()
+	if !ok {
+		return ConnectionError(ErrCodeFlowControl)
+	}
+	if connAdd > 0 {
+		cc.wmu.Lock()
+		cc.fr.WriteWindowUpdate(0, uint32(connAdd))
+		cc.bw.Flush()
+		cc.wmu.Unlock()
+	}
+	return nil
+}
+
 func (rl *clientConnReadLoop) processData(f *DataFrame) error {
 	cc := rl.cc
 	cs := rl.streamByID(f.StreamID, headerOrDataFrame)
@@ -2927,6 +2954,9 @@ func (rl *clientConnReadLoop) processData(f *DataFrame) error {
 			StreamID: f.StreamID,
 			Code:     ErrCodeProtocol,
 		})
+		if err := rl.returnDiscardedData(f); err != nil {
+			return err
+		}
 		return nil
 	}
 	if !cs.pastHeaders {
@@ -2935,6 +2965,9 @@ func (rl *clientConnReadLoop) processData(f *DataFrame) error {
 			StreamID: f.StreamID,
 			Code:     ErrCodeProtocol,
 		})
+		if err := rl.returnDiscardedData(f); err != nil {
+			return err
+		}
 		return nil
 	}
 	if f.Length > 0 {
@@ -2944,6 +2977,9 @@ func (rl *clientConnReadLoop) processData(f *DataFrame) error {
 				StreamID: f.StreamID,
 				Code:     ErrCodeProtocol,
 			})
+			if err := rl.returnDiscardedData(f); err != nil {
+				return err
+			}
 			return nil
 		}
 		// Check connection-level flow control.
